@@ -61,14 +61,17 @@ CHECKS = {'C09': {'category': 'translation_validation',
                  '(reachability proved in Algo/HP/Replay) and the executable form of the safety theorem is evaluated after every replayed step. inplace_scan, attach/detach, record reuse and '
                  'help_scan are outside the machine: the scan decision of both strategies is a Lean function with its own theorems tied to the real classic_scan/inplace_scan by differential runs, '
                  'and the rest is decided by the disposer-time oracle on explored schedules.'},
- 'C02': {'category': 'translation_validation',
-         'technique': 'disposer-time oracle on the real DHP under a deterministic scheduler (initial guard counts 4..32, 40 guards per thread to force guard-block extension, detach/re-attach) + Lean '
-                      'theorem on the shared scan decision model + HP protocol theorem',
-         'text': "DHP's per-pass decision has the same shape as HP's classic scan (binary search of each retired entry in the sorted hazard copy); the Lean theorem covers that decision, and the "
-                 'protocol machine of C01 covers the interleaving argument for static records. Guard blocks (block size 16 vs initial size), retired blocks and record reuse are decided on explored '
-                 'schedules by the disposer-time oracle only.',
+ 'C02': {'category': 'proof',
+         'technique': 'Lean 4: machine of the dynamic hazard pointers (guard storage growing by extension blocks, retired chain growing by blocks, scan over initial arrays and every linked extension '
+                      "block; static thread records) with the theorem 'a guarded object is never disposed' over all schedules + atomic-trace conformance of the real cds::gc::DHP + disposer-time "
+                      'oracle (detach / re-attach, help_scan)',
+         'text': 'C02_guarded_never_disposed (guards in the initial array and in extension blocks alike), C02_extension_visible / C02_pass_reads_every_linked_slot (all B slots of every block linked '
+                 "when the pass loads a record's extension list are read), C02_disposed_once, C02_no_object_lost, C02_retired_chain_has_room hold for every schedule, any initial guard count, any "
+                 'number of guards and retired objects. The real code is replayed against the machine (dhp and dhp_many variants, initial guard counts 4..32, up to 40 guards per thread, retired '
+                 'chains of two blocks). The replay found the double dispose repaired by 323b567. Detach / re-attach, record reuse, help_scan and block recycling through hp_allocator are decided by '
+                 'the disposer-time oracle on explored schedules.',
          'note': 'SC interleavings only (threads serialised by a baton at every atomic operation); memory orders not modelled; explored schedules only for the history/oracle/trace ties; Lean kernel '
-                 '+ propext/Classical.choice/Quot.sound.'},
+                 '+ propext/Classical.choice/Quot.sound. Static thread records in the machine.'},
  'C03': {'category': 'proof',
          'note': 'SC interleavings only (threads serialised by a baton at every atomic operation); memory orders not modelled; explored schedules only for the history/oracle/trace ties; Lean kernel '
                  '+ propext/Classical.choice/Quot.sound. DHP storage growth, attach/detach/help_scan: no machine.',
@@ -106,13 +109,15 @@ CHECKS = {'C09': {'category': 'translation_validation',
          'note': 'SC interleavings only (threads serialised by a baton at every atomic operation); memory orders not modelled; explored schedules only for the history/oracle/trace ties; Lean kernel '
                  '+ propext/Classical.choice/Quot.sound. Fixed batch (requests arriving during the walk not modelled); composition batch + kernel is not a Lean theorem.'},
  'C11': {'category': 'translation_validation',
-         'technique': 'Lean 4: histories of the real priority queues judged against Spec.maxpq by the verified linearizability checker (FCPriorityQueue; MSPriorityQueue without push/pop overlap) + '
-                      'FC batch theorem for FCPriorityQueue + conservation/capacity oracle for MSPriorityQueue histories with push/pop overlap',
-         'text': 'FCPriorityQueue: C11_fcpq_batch_refines / batch_linearizable (Algo/FC/Batch) plus histories. MSPriorityQueue: histories without overlap are generated by construction (pre-filled '
-                 "pops-only; pushes-only then sequential drain) and judged against the bounded max-priority queue with the object's capacity; histories with overlap (mspq_mixed, imspq_mixed) are "
-                 "judged by the conservation oracle (every pushed item popped exactly once after a drain, nothing else popped) and 'push fails only if capacity items can have been present'.",
+         'technique': 'Lean 4: MSPriorityQueue machine (size lock, node locks, tags, bit-reversed slots) with lock-discipline, conservation, capacity and heap-shape theorems over all schedules + '
+                      'atomic-trace conformance + FC batch theorem and differential tie for FCPriorityQueue + histories judged by the verified checker + conservation oracle for overlapping histories',
+         'text': 'MSPriorityQueue: C11_mspq_mutex, C11_mspq_conservation (multiset, every reachable state), C11_mspq_push_fails_only_when_full, C11_mspq_pop_fails_only_when_empty, '
+                 'C11_mspq_heap_order, C11_mspq_quiescent_heap hold for every schedule and capacity 2^k-1; the real queue is replayed against the machine (lock words, results, pre-fill, final '
+                 "drain). 'Every history without push/pop overlap is linearizable to the bounded max-priority queue' is NOT a theorem (C11_mspq_sequential_linearizable_partial gives the "
+                 'representation invariant at quiescence of such runs): that clause is decided by histories generated without overlap by construction and judged by the verified checker. '
+                 'FCPriorityQueue: batch theorem + differential tie (real fc_apply) + histories.',
          'note': 'SC interleavings only (threads serialised by a baton at every atomic operation); memory orders not modelled; explored schedules only for the history/oracle/trace ties; Lean kernel '
-                 '+ propext/Classical.choice/Quot.sound. No atomic-step model of the Hunt heap.'},
+                 '+ propext/Classical.choice/Quot.sound.'},
  'C13': {'category': 'translation_validation',
          'note': 'SC interleavings only (threads serialised by a baton at every atomic operation); memory orders not modelled; explored schedules only for the history/oracle/trace ties; Lean kernel '
                  '+ propext/Classical.choice/Quot.sound. Garbage-collected heap in the machine (no node reuse: what C01/C02 provide).',
@@ -238,12 +243,13 @@ CHECKS = {'C09': {'category': 'translation_validation',
          'note': 'SC interleavings only (threads serialised by a baton at every atomic operation); memory orders not modelled; explored schedules only for the history/oracle/trace ties; Lean kernel '
                  "+ propext/Classical.choice/Quot.sound. 'Every reachable quiescent state is well-formed' is decided on explored schedules, not proved. Known finding: Bronson can be left imbalanced "
                  'by 2 at quiescence.'},
- 'C19': {'category': 'exploration',
-         'technique': 'relational oracle over the real iterators of IterableList, MichaelHashSet/SplitListSet over it and FeldmanHashSet/Map (forward and reverse) with concurrent updaters under a '
-                      "deterministic scheduler; the oracle's clauses are stated as decidable Lean definitions (Props/C19)",
-         'text': 'One iterating thread and 2-3 updating threads; the client logs additions, removals, visits and erase_at calls with scheduler timestamps and judges: never a disposed current element '
-                 '(flag read on arrival and before leaving, scheduling points in between), every element present throughout visited (exactly once / in key order for lists, at least once for '
-                 'Feldman), no phantom, erase_at true removes exactly that element, erase_at false only if the element was removed or replaced, final content. Feldman hashes share prefixes so that '
-                 'array nodes split under the iterator. No iterator model in Lean yet.',
+ 'C19': {'category': 'translation_validation',
+         'technique': 'Lean 4: IterableList machine with iterator and erase_at (all schedules: guard never holds a disposed element, complete and exactly once, erase_at exact; key order proved false '
+                      'of the code, with the counterexample machine-checked) + atomic-trace conformance of the real IterableList + relational oracle over the real iterators of the hash sets over it '
+                      'and of FeldmanHashSet/Map',
+         'text': 'C19_iter_never_disposed_current, C19_iter_complete_once, C19_erase_at_exact, C19_erase_at_false_only, C19_chain_append_only, C19_element_never_moves hold for every schedule; the '
+                 'ordering clauses are false of the real algorithm (known finding: non-atomic find_prev walk) and are proved relative to sortedness (C19_iter_ordered_partial, '
+                 'C19_sorted_preserved_except_reuse). The real list (ilist_hp) is replayed against the machine. MichaelHashSet / SplitListSet over IterableList and the Feldman iterators (forward and '
+                 "reverse, array-node splits under the iterator) are decided by the client's relational oracle on explored schedules.",
          'note': 'SC interleavings only (threads serialised by a baton at every atomic operation); memory orders not modelled; explored schedules only for the history/oracle/trace ties; Lean kernel '
-                 '+ propext/Classical.choice/Quot.sound. HP (and DHP for the intrusive list) only; RCU Feldman iterators not driven.'}}
+                 '+ propext/Classical.choice/Quot.sound. Feldman iterators: no machine; RCU Feldman iterators not driven.'}}
